@@ -140,6 +140,7 @@ func (e *Engine) verifyFunc(key string, budget int) (res *FuncResult) {
 			}
 		}
 	}
+	fr.initGhosts()
 	// vacuity guard: the assumptions so far must be satisfiable
 	g := c.obligeX("vacuity", "preconditions are satisfiable (this obligation must NOT be provable)", "", nil, "true", "false", nil, false)
 	g.MustFail = true
